@@ -7,8 +7,8 @@ from typing import Any, Dict, List, Sequence
 from .. import core
 
 INV = ['TypeOK', 'C03_Partition', 'C03_FirstAppearance', 'C03_Extremes', 'C03_RangeIsFeasibleSet', 'C04_ReadsInside',
-       'C01_GaussSeidel', 'C01_WritesOnlyLHS', 'C20_DepsAreReads']
-ACTIONS = ['DoPushVar', 'DoPushNum', 'DoUnary', 'DoBinary', 'Ternary', 'DoClose', 'Finish']
+       'C01_GaussSeidel', 'C01_WritesOnlyLHS', 'C20_DepsAreReads', 'C13_OneBlockEach']
+ACTIONS = ['DoPushVar', 'DoPushNum', 'DoUnary', 'DoBinary', 'Ternary', 'DoClose', 'DoVerbatim', 'Finish']
 
 LAYERS: Dict[str, Dict[str, Any]] = {
     # index / kind rendering of a single term
@@ -25,6 +25,10 @@ LAYERS: Dict[str, Dict[str, Any]] = {
     # verbatim fragments between backticks (copied into the code untouched, inner blanks and quotes included)
     'verb': dict(MaxStmts=1, MaxLeaves=2, MaxNodes=3, MaxNames=2, Kinds='VOnly', Idxs='ShapeIdxs', LhsIdxs='Lhs0', Nums='NoStr', Verbs='VerbSet',
                  BinOps='PlusOnly', CmpOps='NoStr', Funcs1='NoStr', Funcs2='MaxOnly', UseNeg='TRUE', UseParen='TRUE', UseCond='FALSE'),
+    # verbatim statements (a backticked line, a fenced block) before, between and after the equations
+    'vstmt': dict(MaxStmts=2, MaxLeaves=1, MaxNodes=1, MaxNames=3, Kinds='VOnly', Idxs='ShapeIdxs', LhsIdxs='Lhs0', Nums='NoStr',
+                  BinOps='NoStr', CmpOps='NoStr', Funcs1='NoStr', Funcs2='NoStr', UseNeg='FALSE', UseParen='FALSE', UseCond='FALSE',
+                  MaxVerbatim=2, VForms='BothForms', NoReject='TRUE'),
     # boolean keywords (and / or / not) around comparisons
     'bool': dict(MaxStmts=1, MaxLeaves=3, MaxNodes=6, MaxNames=2, Kinds='VOnly', Idxs='Lhs0', LhsIdxs='Lhs0', Nums='NoStr',
                  BinOps='PlusOnly', CmpOps='LtOnly', Funcs1='NoStr', Funcs2='NoStr', UseNeg='FALSE', UseParen='FALSE', UseCond='TRUE',
@@ -71,6 +75,8 @@ def layer_cfg(layer: str, invariants: Sequence[str], emit: bool = True) -> str:
         lines.append(f'  {k} <- {c[k]}')
     lines.append(f"  BoolOps <- {c.get('BoolOps', 'NoStr')}")
     lines.append(f"  Verbs <- {c.get('Verbs', 'NoStr')}")
+    lines.append(f"  MaxVerbatim = {c.get('MaxVerbatim', 0)}")
+    lines.append(f"  VForms <- {c.get('VForms', 'NoForms')}")
     lines.append(f"  UseNot = {c.get('UseNot', 'FALSE')}")
     lines.append(f"  NoReject = {c.get('NoReject', 'FALSE')}")
     for k in ('UseNeg', 'UseParen', 'UseCond'):
@@ -83,7 +89,7 @@ def layer_cfg(layer: str, invariants: Sequence[str], emit: bool = True) -> str:
     return '\n'.join(lines) + '\n'
 
 
-SMALL_LAYERS = {'verb': 2, 'bool': 8, 'term': 2, 'merge2_small': 4, 'shape3_small': 8, 'fortran_small': 8, 'pair_small': 8, 'merge3': 8, 'merge2': 8}
+SMALL_LAYERS = {'vstmt': 4, 'verb': 2, 'bool': 8, 'term': 2, 'merge2_small': 4, 'shape3_small': 8, 'fortran_small': 8, 'pair_small': 8, 'merge3': 8, 'merge2': 8}
 
 
 def emit_layer(ctx: core.Ctx, layer: str, *, timeout: int = 3600) -> List[Dict[str, Any]]:
@@ -103,7 +109,7 @@ def emit_layer(ctx: core.Ctx, layer: str, *, timeout: int = 3600) -> List[Dict[s
     # programs whose first statement has a single-token right-hand side are seen by every shard: keep one copy
     seen, out = set(), []
     for rec in recs:
-        sig = json.dumps(rec['stmts'], sort_keys=True)
+        sig = json.dumps([rec['stmts'], rec.get('verbat', [])], sort_keys=True)
         if sig not in seen:
             seen.add(sig)
             out.append(rec)
@@ -128,7 +134,7 @@ def simulate_layer(ctx: core.Ctx, layer: str, num: int, depth: int = 240, invari
     ctx.add_tlc(agg, f'Script layer {layer} -simulate num={num}', constants=f'seed={ctx.seed}')
     seen, out = set(), []
     for rec in recs:
-        sig = json.dumps(rec['stmts'], sort_keys=True)
+        sig = json.dumps([rec['stmts'], rec.get('verbat', [])], sort_keys=True)
         if sig not in seen:
             seen.add(sig)
             out.append(rec)
@@ -185,10 +191,12 @@ def judge_programs(ctx: core.Ctx, programs: List[List[Dict[str, Any]]], tag: str
     if not programs:
         return []
     path = core.subdir('judge') / f'{ctx.prop}-{tag}.json'
+    # a program is a list of statements, or {'stmts': [...], 'verbat': [...]} when verbatim statements are interleaved
+    programs = [p if isinstance(p, dict) else {'stmts': p, 'verbat': []} for p in programs]
     path.write_text(json.dumps(programs))
     cfg = ['INIT JInit', 'NEXT JNext', 'CONSTANTS', '  MaxStmts = 40', '  MaxLeaves = 40', '  MaxNodes = 200', '  MaxNames = 40',
            '  Kinds <- AllKinds', '  Idxs <- TermIdxs', '  LhsIdxs <- Lhs01', '  Nums <- NoStr', '  BinOps <- NoStr', '  CmpOps <- NoStr',
-           '  BoolOps <- NoStr', '  Verbs <- NoStr', '  Funcs1 <- NoStr', '  Funcs2 <- NoStr', '  UseNeg = FALSE', '  UseParen = FALSE', '  UseCond = FALSE',
+           '  BoolOps <- NoStr', '  Verbs <- NoStr', '  MaxVerbatim = 40', '  VForms <- BothForms', '  Funcs1 <- NoStr', '  Funcs2 <- NoStr', '  UseNeg = FALSE', '  UseParen = FALSE', '  UseCond = FALSE',
            '  UseNot = FALSE', '  NoReject = FALSE', '  Shard = {shard}', '  NShards = {nshards}']
     cfg += [f'INVARIANT {i}' for i in invariants if i != 'TypeOK'] + ['INVARIANT JTypeOK', 'INVARIANT EmitInv', 'CHECK_DEADLOCK FALSE']
     results = core.run_sharded('ScriptJudge', '\n'.join(cfg) + '\n', core.NCPU, tag=f'{ctx.prop}-judge-{tag}', heap='2g',
